@@ -19,12 +19,18 @@ static mut NEXT_DEFAULT: u8 = DEFAULT_BASE;
 static mut OBSERVED: u32 = 0;
 
 pub struct Tok {
+    /// identity: which drop counter / liveness flag this token owns
     pub id: u8,
+    /// payload: what `==` and `hash` look at (so two distinct tokens can be equal); `new` sets it to `id`
+    pub val: u8,
 }
 
 impl Tok {
     pub fn new(id: u8) -> Tok {
-        Tok { id }
+        Tok { id, val: id }
+    }
+    pub fn with(id: u8, val: u8) -> Tok {
+        Tok { id, val }
     }
 }
 impl Default for Tok {
@@ -32,7 +38,7 @@ impl Default for Tok {
         unsafe {
             let id = NEXT_DEFAULT;
             NEXT_DEFAULT += 1;
-            Tok { id }
+            Tok { id, val: id }
         }
     }
 }
@@ -78,7 +84,7 @@ impl PartialEq for Tok {
     fn eq(&self, other: &Tok) -> bool {
         assert!(live(self.id) && live(other.id), "K-READ-AFTER-MOVE: == on a moved-out element");
         unsafe { OBSERVED += 1; }
-        self.id == other.id
+        self.val == other.val
     }
 }
 impl Eq for Tok {}
@@ -86,7 +92,7 @@ impl Hash for Tok {
     fn hash<H: Hasher>(&self, state: &mut H) {
         assert!(live(self.id), "K-READ-AFTER-MOVE: hash of a moved-out element");
         unsafe { OBSERVED += 1; }
-        state.write_u8(self.id);
+        state.write_u8(self.val);
     }
 }
 impl fmt::Debug for Tok {
@@ -107,6 +113,15 @@ impl Hasher for NullHasher {
     fn write(&mut self, bytes: &[u8]) { self.0 = self.0.wrapping_add(bytes.len() as u64); }
     fn write_u8(&mut self, i: u8) { self.0 = self.0.wrapping_add(i as u64); }
     fn write_usize(&mut self, i: usize) { self.0 = self.0.wrapping_add(i as u64); }
+}
+
+/// Deterministic, loop-free hasher whose result depends on every written value and on the order.
+pub struct MixHasher(pub u64);
+impl Hasher for MixHasher {
+    fn finish(&self) -> u64 { self.0 }
+    fn write(&mut self, bytes: &[u8]) { self.0 = self.0.rotate_left(7) ^ (bytes.len() as u64) ^ 0x5555; }
+    fn write_u8(&mut self, i: u8) { self.0 = self.0.rotate_left(5) ^ (i as u64) ^ 0x9e37; }
+    fn write_usize(&mut self, i: usize) { self.0 = self.0.rotate_left(11) ^ (i as u64) ^ 0x79b9; }
 }
 
 /// `fmt::Write` sink that discards its input.
